@@ -71,6 +71,7 @@ Let r := gpf_correct gc lik trans zs pred old.
 
 Lemma correct_weight_product (i : nat) (d : particle O n) :
   fst (lik xs) = true -> (i < length pred)%nat ->
+  length (snd (lik xs)) = length pred -> length (trans (map pstate pred) xs) = length pred ->
   let li := nth i (snd (lik xs)) 0 in
   let ti := nth i (trans (map pstate pred) xs) 0 in
   let b := belief_at g i in
@@ -81,7 +82,7 @@ Lemma correct_weight_product (i : nat) (d : particle O n) :
   exp (plw (nth i pred (dparticle O n))) * (li + stiny C08_ROps) * (ti + stiny C08_ROps)
   / (qi + stiny C08_ROps).
 Proof.
-  intros Hv Hi li ti b qi Hl Ht.
+  intros Hv Hi _ _ li ti b qi Hl Ht.
   assert (Hq : 0 < qi) by apply density_pos.
   destruct (weight_log_args_positive li ti qi Hl Ht (Rlt_le _ _ Hq)) as (Pl & Pt & Pq).
   repeat (split; [assumption|]).
@@ -129,10 +130,17 @@ Fixpoint incr_sum (st : fstate O n) (h : list (step_in O n)) (i : nat) : R :=
   | s :: h' => step_incr st s i + incr_sum (gpf_step st s) h' i
   end.
 
-Fixpoint all_valid (st : fstate O n) (h : list (step_in O n)) : Prop :=
+(* every correction of the history is valid and its likelihood / transition models return one
+   value per particle (their contract) *)
+Fixpoint all_valid (N : nat) (st : fstate O n) (h : list (step_in O n)) : Prop :=
   match h with
   | [] => True
-  | s :: h' => fs_valid (gpf_step st s) = true /\ all_valid (gpf_step st s) h'
+  | s :: h' =>
+      let st' := gpf_step st s in
+      fs_valid st' = true /\ length (fs_lik st') = N /\
+      length (si_trans s (map pstate (fs_pred st'))
+                       (gpf_drawn (si_gc s) (si_zs s) (fs_pred st') (fs_corr st))) = N /\
+      all_valid N st' h'
   end.
 
 Lemma gpf_weight_split (lw l t q : R) :
@@ -142,16 +150,16 @@ Proof. rewrite !gpf_weight_R. lra. Qed.
 Lemma weights_telescope (N : nat) (h : list (step_in O n)) : forall (st : fstate O n) (i : nat),
   length (fs_pred st) = N -> length (fs_corr st) = N ->
   Forall (fun s => shape_ok O n (si_gp s) /\ shape_ok O n (si_gc s)) h ->
-  all_valid st h -> (i < N)%nat ->
+  all_valid N st h -> (i < N)%nat ->
   plw (nth i (fs_corr (gpf_run st h)) (dparticle O n)) =
   plw (nth i (fs_corr st) (dparticle O n)) + incr_sum st h i.
 Proof.
   induction h as [|s h IH]; intros st i Lp Lc HF Hv Hi.
   - cbn. lra.
-  - apply Forall_cons_iff in HF. destruct HF as [[Sp Sc] HF']. destruct Hv as [Hv1 Hv].
+  - apply Forall_cons_iff in HF. destruct HF as [[Sp Sc] HF']. destruct Hv as (Hv1 & Hl1 & Hl2 & Hv).
     pose proof (gpf_step_formulae O n N st s Lp Lc Sp Sc) as SF.
     destruct SF as (L1 & L2 & _ & Hw & _ & _ & _ & Hval).
-    destruct (Hval Hv1) as (_ & _ & Hall). destruct (Hall i Hi) as [_ Hwi].
+    destruct (Hval Hv1) as (_ & _ & Hall). destruct (Hall Hl1 Hl2 i Hi) as [_ Hwi].
     change (gpf_run st (s :: h)) with (gpf_run (gpf_step st s) h).
     rewrite (IH (gpf_step st s) i L1 L2 HF' Hv Hi). cbn [incr_sum].
     rewrite Hwi. rewrite gpf_weight_split.
